@@ -167,6 +167,14 @@ fn f_aa<'a>(args: FunctionArgs<'_, 'a>) -> Option<LhsValue<'a>> {
     }
 }
 
+fn f_both<'a>(args: FunctionArgs<'_, 'a>) -> Option<LhsValue<'a>> {
+    let a = collect("both", args);
+    match (&a[0], &a[1]) {
+        (Val::Bool { v: x }, Val::Bool { v: y }) => Some(LhsValue::Bool(*x && *y)),
+        _ => None,
+    }
+}
+
 fn kind(k: &str) -> SimpleFunctionArgKind {
     match k {
         "Literal" => SimpleFunctionArgKind::Literal,
@@ -358,6 +366,7 @@ pub fn add_func(b: &mut SchemeBuilder, f: &FuncSpec) -> Result<(), String> {
         "ba" => Some(SimpleFunctionImpl::new(f_ba)),
         "ab" => Some(SimpleFunctionImpl::new(f_ab)),
         "aa" => Some(SimpleFunctionImpl::new(f_aa)),
+        "both" => Some(SimpleFunctionImpl::new(f_both)),
         _ => None,
     };
     match (f.sem.as_str(), imp) {
